@@ -253,6 +253,12 @@ def _bound_var(mod, node):
     return None
 
 
+def _is_empty_display(e, kind):
+    if kind == 'list':
+        return (isinstance(e, ast.List) and not e.elts) or (isinstance(e, ast.Call) and norm(e) == 'list()')
+    return (isinstance(e, ast.Dict) and not e.keys) or (isinstance(e, ast.Call) and norm(e) == 'dict()')
+
+
 # ---- symbolic evaluation of the string handed to re.compile ---------------------------------------
 
 def _lit(s):
@@ -776,6 +782,12 @@ def _type_tables(rep):
                      if not isinstance(st, (ast.FunctionDef, ast.AsyncFunctionDef, ast.ClassDef)))
     rep.check('R05.a', '%s::registration loop' % ROUTE, ok, 'every DEFAULT_CONVS entry is registered as (name, func, pattern)' if ok else
               'DEFAULT_CONVS is not registered entry by entry in order', route, loops[0] if loops else None)
+    # the two maps are two objects: each name is bound once, to an empty dict display of its own
+    tv = [route.assigns.get(t, []) for t in TYPE_TABLES]
+    ok = all(len(v) == 1 and isinstance(v[0], ast.expr) and _is_empty_display(v[0], 'dict') for v in tv) and tv[0][0] is not tv[1][0]
+    rep.check('R05.a', '%s::type maps are two dicts' % ROUTE, ok, 'TYPE_CONV_MAP and TYPE_PATT_MAP are two empty dicts of their own' if ok else
+              'TYPE_CONV_MAP and TYPE_PATT_MAP are not two separately created empty dicts (one object under both names receives converter and pattern '
+              'under the same key: the pattern overwrites the converter)', route, anchor)
     for name in PATTERN_NAMES:
         p = pats[name]
         rep.check('R05.a', '%s::%s::no slash' % (ROUTE, name), not regexq.can_consume(p, '/'),
@@ -794,7 +806,7 @@ def _type_tables(rep):
         ok, w = regexq.included(a, b)
         rep.check('R05.a', '%s::inclusion::%s' % (ROUTE, label), ok, 'automata inclusion holds: %s' % label if ok else
                   'language inclusion fails (%s): %r is matched by %r but not by %r' % (label, w, a, b), route)
-    rep.floor('R05.a', 18)
+    rep.floor('R05.a', 19)
     return convs, pats
 
 
@@ -837,10 +849,16 @@ def _roles(rep):
     R.opvar = R.kwt.get('arity') if isinstance(R.kw.get('arity'), ast.Name) else None
     # table lookups: table name -> [(Subscript node, key text, local it is bound to)]
     R.lookups = dict((tab, []) for tab in TYPE_TABLES + OP_TABLES)
+    R.soft = {}      # id(lookup node) -> default expression or None: lookups written ``TABLE.get(key[, default])``
     for n in walk_body(cp.node):
         if isinstance(n, ast.Subscript) and isinstance(n.ctx, ast.Load) and isinstance(n.value, ast.Name) and \
                 n.value.id in TYPE_TABLES + OP_TABLES and n.value.id not in _all_params(cp) and not _stores(cp.node, n.value.id):
             R.lookups.setdefault(n.value.id, []).append((n, norm(n.slice), _bound_var(route, n)))
+        elif isinstance(n, ast.Call) and isinstance(n.func, ast.Attribute) and n.func.attr == 'get' and isinstance(n.func.value, ast.Name) and \
+                n.func.value.id in TYPE_TABLES + OP_TABLES and n.func.value.id not in _all_params(cp) and not _stores(cp.node, n.func.value.id) and \
+                1 <= len(n.args) <= 2 and not n.keywords:
+            R.lookups.setdefault(n.func.value.id, []).append((n, norm(n.args[0]), _bound_var(route, n)))
+            R.soft[id(n)] = n.args[1] if len(n.args) == 2 else None
 
     missing = [tab for tab in TYPE_TABLES + OP_TABLES if not R.lookups[tab]]
     if missing:
@@ -856,6 +874,8 @@ def _roles(rep):
             return None, None
         if isinstance(expr, ast.Subscript) and isinstance(expr.value, ast.Name) and expr.value.id in R.lookups:
             return expr.value.id, norm(expr.slice)
+        if isinstance(expr, ast.Call) and id(expr) in R.soft:
+            return expr.func.value.id, norm(expr.args[0])
         return None, None
     R.table_of = table_of
     bc = [c for c in walk_body(cp.node) if isinstance(c, ast.Call) and call_name(c) == 'build_converter']
@@ -985,6 +1005,22 @@ def _rule_c(rep, R):
             return None
         rs = [x for x in ast.walk(h) if isinstance(x, ast.Raise)]
         return h if rs and all(raise_type(x) == 'InvalidPattern' for x in rs) else None
+    rejected_soft = set()
+    in_loop = set(id(x) for x in ast.walk(R.loop)) if R.loop is not None else set()
+    loopvar = R.loop.target.id if isinstance(R.loop, ast.For) and isinstance(R.loop.target, ast.Name) else None
+
+    def only_these(cs, var):
+        """inside the loop the raise stands under nothing but "the looked-up value is None" (and the part being a binding)"""
+        for t, pol in cs:
+            if id(t) not in in_loop or isinstance(t, ast.BoolOp) or implies_absent([(t, pol)], var):
+                continue
+            if loopvar is not None and implies_present([(_inline(cp, t, stable=(loopvar,)), pol)], 'BINDING.match(%s)' % loopvar):
+                continue
+            if any((norm(t), not pol) in [(norm(t2), p2) for t2, p2 in conds(cp, r2)] for r2 in rz):
+                continue        # what is left over from another rejection: that one raises under the opposite fact
+            return False
+        return True
+    none_default = lambda node: R.soft.get(id(node)) is None or (isinstance(R.soft[id(node)], ast.Constant) and R.soft[id(node)].value is None)
     for r in rz:
         cs = conds(cp, r)
         tries = [(t, part) for t, part in enclosing_tries(route, r, cp.node)]
@@ -1010,9 +1046,26 @@ def _rule_c(rep, R):
             for label, tables in sorted(families.items()):
                 if absent_from(cs, tables) is not None:
                     found[label] = r
+                # ... or the result of ``TABLE.get(key)`` found to be None:  v = TABLE.get(key); if v is None: raise InvalidPattern(...)
+                for tab in tables:
+                    for node, key, var in R.lookups.get(tab, []):
+                        if id(node) in R.soft and none_default(node) and var is not None and _stores(cp.node, var) == 1 and implies_absent(cs, var) and \
+                                only_these(cs, var):
+                            found[label] = r
+                            rejected_soft.add(id(node))
     for label in ('leading slash', "'//'", 'duplicate binding', 'unknown type', 'unknown operator'):
         rep.check('R05.c', fkey(cp, 'rejects: ' + label), label in found, 'InvalidPattern is raised for: %s' % label if label in found else
                   'no guarded "raise InvalidPattern" for: %s' % label, route, found.get(label, cp.node))
+    # the two tests of the pattern as a whole reject for every pattern and mode: they stand under no other condition
+    def whole_pattern_fact(t):
+        tx = norm(t)
+        return tx in ("%s.startswith('/')" % pvar, "'//' in %s" % pvar, "'//' not in %s" % pvar) or \
+            tx in ("%s[:1] != '/'" % pvar, "%s[0:1] != '/'" % pvar, "%s[:1] == '/'" % pvar, "%s[0:1] == '/'" % pvar)
+    for label in ('leading slash', "'//'"):
+        if label in found:
+            extra = [(t, pol) for t, pol in conds(cp, found[label]) if not isinstance(t, ast.BoolOp) and not whole_pattern_fact(t)]
+            rep.check('R05.c', fkey(cp, 'rejects unconditionally: ' + label), not extra, 'the test applies to every pattern in every mode' if not extra else
+                      'the rejection (%s) is only made when also %s' % (label, ', '.join(cond_texts(extra))), route, found[label])
     # every table lookup can only fail as InvalidPattern: it runs under a KeyError handler that always raises InvalidPattern, or after a
     # membership test of the same key, or after such a lookup of the same key in the sister table (both tables have the same keys:
     # R05.a registration / R05.b operator tables keys)
@@ -1020,7 +1073,9 @@ def _rule_c(rep, R):
     start = ccfg.nodes_of(R.loop) if R.loop is not None and ccfg.nodes_of(R.loop) else ccfg.entry
     for label, tables in sorted(families.items()):
         looks = [(node, key) for tab in tables for node, key, var in R.lookups.get(tab, [])]
-        safe = [(node, key) for node, key in looks if rejecting_handler(node) is not None or key in present_in(conds(cp, node), tables)]
+        # (a ``.get`` never raises KeyError: it is safe after a membership test, or when its None result is rejected)
+        safe = [(node, key) for node, key in looks if (id(node) not in R.soft and rejecting_handler(node) is not None) or
+                key in present_in(conds(cp, node), tables) or id(node) in rejected_soft]
         todo = [x for x in looks if x not in safe]
         progress = True
         while todo and progress:
@@ -1033,8 +1088,10 @@ def _rule_c(rep, R):
                     progress = True
         ok = bool(looks) and not todo
         rep.check('R05.c', fkey(cp, 'lookups guarded: ' + label), ok, 'every lookup in %s fails as InvalidPattern' % ' / '.join(tables) if ok else
-                  'a lookup in %s can raise a bare KeyError (not under the rejecting handler / membership test): %s' %
-                  (' / '.join(tables), short(stmt_of(route, todo[0][0]), 60) if todo else 'no lookup found'), route, todo[0][0] if todo else cp.node)
+                  'a lookup in %s %s: %s' %
+                  (' / '.join(tables), 'with a default accepts an unknown key silently' if todo and id(todo[0][0]) in R.soft else
+                   'can raise a bare KeyError (not under the rejecting handler / membership test)',
+                   short(stmt_of(route, todo[0][0]), 60) if todo else 'no lookup found'), route, todo[0][0] if todo else cp.node)
     dup_store = _item_stores(cp, VCM)
     ok = len(dup_store) == 1 and 'duplicate binding' in found
     rep.check('R05.c', fkey(cp, 'bindings recorded'), ok, 'every binding is recorded, so a second use of the name is seen' if ok else
@@ -1044,14 +1101,26 @@ def _rule_c(rep, R):
     cc = [stmt_of(route, c) for c in walk_body(ri.node) if isinstance(c, ast.Call) and call_name(c) == '_compile_path_pattern'
           and c.args and len(ri.params()) > 1 and norm(c.args[0]) == ri.params()[1]]
     pst = [s for s in stmts_of(ri.node) if isinstance(s, ast.Assign) and norm(s.targets[0]) == 'self.pattern']
+    def swallowed(st):
+        """a handler around the compile call that catches InvalidPattern (by that name or as one of its bases) and does not always re-raise"""
+        from ..astutil import exc_names
+        for tr, part in enclosing_tries(route, st, ri.node):
+            if part != 'body':
+                continue
+            for h in tr.handlers:
+                names = exc_names(h.type)
+                if names is None or set(n.rpartition('.')[2] for n in names) & {'InvalidPattern', 'ValueError', 'Exception', 'BaseException'}:
+                    if not handler_reraises_always(ri, h):
+                        return True
+        return False
     ok = len(cc) == 1 and len(pst) == 1 and rcfg.must_pass(rcfg.nodes_of(cc[0]), rcfg.entry, rcfg.exit, normal_only=True) and \
-        protected_by(ri, cc[0], 'ValueError') is None
+        protected_by(ri, cc[0], 'ValueError') is None and not swallowed(cc[0])
     rep.check('R05.c', fkey(ri, 'pattern compiled at construction'), ok, 'Route.__init__ compiles (validates) the pattern on every normal path; InvalidPattern propagates' if ok else
               'Route.__init__ does not always validate the pattern (or swallows InvalidPattern)', route, cc[0] if cc else ri.node)
     k, m, ip = repo.resolve(route, 'InvalidPattern')
     ok = k == 'class' and repo.is_subclass(ip, 'ValueError')
     rep.check('R05.c', '%s::InvalidPattern' % ROUTE, ok, 'InvalidPattern is a ValueError' if ok else 'InvalidPattern is no longer a ValueError', route)
-    rep.floor('R05.c', 10)
+    rep.floor('R05.c', 12)
 
 
 # ---- R05.d ------------------------------------------------------------------------------------------
@@ -1573,6 +1642,25 @@ def _rule_e_bindings(rep, R, convs, pats):
         raise AnalysisError('BINDING regex: %s' % e)
     rep.check('R05.e', '%s::BINDING groups' % ROUTE, bool({'name', 'op', 'type'} <= set(gd)), 'BINDING exposes groups name / op / type' if {'name', 'op', 'type'} <= set(gd) else
               'BINDING lacks one of the groups name / op / type', route)
+    if {'name', 'op', 'type'} <= set(gd):
+        # the three pieces are told apart by character class, in the order name, operator, type; every documented form is a binding
+        try:
+            specs = (('name', r'\w+', 'word characters'), ('op', r'\W*', 'non-word characters'), ('type', r'\w*', 'word characters'))
+            for g, spec, what in specs:
+                ok, w = regexq.included(regexq.group_tree(b, g), spec)
+                rep.check('R05.e', '%s::BINDING group %s' % (ROUTE, g), ok, 'group %s consists of %s' % (g, what) if ok else
+                          'group %s of BINDING can capture %r: name, operator and type are no longer told apart by their characters' % (g, w), route)
+            ok = gd['name'] < gd['op'] < gd['type']
+            rep.check('R05.e', '%s::BINDING group order' % ROUTE, ok, 'the groups come in the order name, op, type' if ok else
+                      'the groups of BINDING do not come in the order name, op, type', route)
+            ops = '|'.join(re.escape(o) for o in sorted(DOC_QUANT) + [':'] if o)
+            types = '|'.join(sorted(convs)) if convs else 'int|float|str|unicode'
+            canon = r'<[A-Za-z_][A-Za-z0-9_]*(%s)?(%s)?>' % (ops, types)
+            ok, w = regexq.included(canon, b)
+            rep.check('R05.e', '%s::BINDING accepts the documented forms' % ROUTE, ok, 'every <name>, <name OP>, <name OP type> is recognised as a binding' if ok else
+                      'BINDING does not recognise %r as a binding: it is compiled as a literal segment' % w, route)
+        except AnalysisError as e:
+            raise AnalysisError('BINDING regex: %s' % e)
     # each role is fed from the group of the same name: the name put into the segment and every key recorded in the converter
     # map, the key of the type tables, the quantifier -- whether held in a variable, a copy of it, or read off the match in place
     def group_of_value(e, role):
@@ -1610,12 +1698,6 @@ def _rule_e_bindings(rep, R, convs, pats):
 
 
 # ---- R05.g ------------------------------------------------------------------------------------------
-
-def _is_empty_display(e, kind):
-    if kind == 'list':
-        return (isinstance(e, ast.List) and not e.elts) or (isinstance(e, ast.Call) and norm(e) == 'list()')
-    return (isinstance(e, ast.Dict) and not e.keys) or (isinstance(e, ast.Call) and norm(e) == 'dict()')
-
 
 def _rule_g_segments(rep, R):
     """The list handed to ``sep.join`` holds, in order, one element per literal part of the pattern -- the part itself -- with
@@ -1969,7 +2051,7 @@ def run(rep):
     if R is not None and pats is not None:
         _guarded(rep, _rule_e_bindings, rep, R, convs, pats)
     if not rep.gaps:
-        rep.floor('R05.e', 8)
+        rep.floor('R05.e', 13)
     if pats is not None and tabs is not None:
         _guarded(rep, _rule_f, rep, pats, tabs[2])
     if R is not None:
